@@ -1,3 +1,4 @@
+import Woodpile.Driver.Unwind
 import Woodpile.Driver.Util
 import Woodpile.Model.Stream
 import Woodpile.Model.StreamP
@@ -110,7 +111,9 @@ def cstep (s : CSt) : List String → CSt × List String
   | ["check_default"] => (s, ["ok"])
   | _ => (s, ["bad-op"])
 
-def chunkerFamily : Family := { σ := CSt, init := cinit, step := cstep }
+/-- `pump` never panics: every op may be wrapped in `unwinding` (`Driver/Unwind.lean`) -/
+def chunkerFamily : Family :=
+  withUnwindOut { σ := CSt, init := cinit, step := cstep } (fun _ _ => true) panicOrBad
 
 /-! #### reader -/
 
@@ -214,6 +217,26 @@ def rstep (s : RSt) : List String → RSt × List String
   | ["check_default"] => (s, ["ok"])
   | _ => (s, ["bad-op"])
 
-def readerFamily : Family := { σ := RSt, init := rinit, step := rstep }
+/-- The reader family with the `unwinding` / `scoped_panic` forms (track traits).  `next` / `nextall`
+trip a documented assertion when the judge answers SkipRecord on an empty range, so they are wrapped
+only under the always-KeepGoing judge (the flag follows the `judge` / `reset` op words, exactly as
+`ReaderExec::unwind_safe` reads the harness's judge). -/
+def readerFamily : Family :=
+  withUnwind
+    { σ := RSt × Bool, init := (rinit, true),
+      step := fun (s, kg) ws =>
+        let kg' := match ws with
+          | ["judge", "keepgoing"] => true
+          | ["judge", "std", _, _] => if (rstep s ws).2 = ["ok"] then false else kg
+          | ["judge", "list", _] => if (rstep s ws).2 = ["ok"] then false else kg
+          | ["reset"] => true
+          | _ => kg
+        let (s', outs) := rstep s ws
+        ((s', kg'), outs) }
+    (fun (_, kg) ws =>
+      match ws with
+      | ["next"] => kg
+      | "nextall" :: _ => kg
+      | _ => true)
 
 end Woodpile.Driver.StreamFam
